@@ -806,8 +806,22 @@ LAZY_KW = [
     ("[1, 2, 3, 4].select(tick($, $)).defaultIfEmpty([0]).first()", [1]),
     ("[1, 2, 3, 4].select(tick($, $)).memorize().take(2).toList()", [1, 2]),
     ("let(m => [1, 2, 3].select(tick($, $)).memorize()) -> [$m.first(), $m.first()]", [1]),
+    # method of a yaqlized host object: positional then keyword arguments, left to right, before the body
+    ("$o.combine(tick(1, 2), tick(2, 3), scale => tick(3, 10), offset => tick(4, 1))", [1, 2, 3, 4, 'body']),
+    ("$o?.combine(tick(1, 2), offset => tick(2, 1))", [1, 2, 'body']),
+    ("$o.combine(scale => tick(1, 10), offset => tick(2, 1))", [1, 2, 'body']),
 ]
 LKBOX = [(i,) for i in range(len(LAZY_KW))]
+
+
+class _Host:
+    def combine(self, a=0, b=0, scale=1, offset=0):
+        L.LOG.append('body')
+        return (a + b) * scale + offset
+
+
+from yaql import yaqlization as _yz
+HOST_OBJ = _yz.yaqlize(_Host())
 
 
 def lazy_keyword(t: int) -> bool:
@@ -819,7 +833,9 @@ def lazy_keyword(t: int) -> bool:
     with H.NoTracing():
         del L.LOG[:]
         try:
-            yq.stmt(text, L.ENG).evaluate(context=L.CTX.create_child_context())
+            c = L.CTX.create_child_context()
+            c['o'] = HOST_OBJ
+            yq.stmt(text, L.ENG).evaluate(context=c)
             ok = list(L.LOG) == want
         except Exception:
             ok = False
